@@ -15,6 +15,7 @@ the statement under the decidable hypothesis `homog` (every list's first-item ty
 condition the code does not check.
 -/
 import Arca.Proofs.InferSound
+import Arca.Proofs.InferComplete
 
 namespace Arca.Props.C08Infer
 open Arca.Model.Infer Arca.Proofs.InferSound
@@ -76,6 +77,25 @@ def sample : Lit :=
 example : (infer sample).isSome = true ∧ wf sample = true ∧ homog sample = true := by
   refine ⟨?_, ?_, ?_⟩ <;> simp [sample, infer, inferItems, inferFields, ITy.tid, wf, wfItems, wfFields,
     accepts, acceptsAll, acceptsObj, homog, homogItems, homogFields]
+
+/-- COMPLETENESS of the refusal: `infer.Type` returns an error for exactly the literals that hold a nil or a list with items of
+    different `TypeID()` (`typable`, a decidable predicate on the value alone) — every other literal gets a schema.  Together with
+    `inferred_schema_accepts_homogeneous_value_partial`: a typable, homogeneous, well-formed output value can never produce the
+    `bug:` error of `handleOutput`. -/
+theorem inference_refuses_exactly_the_untypable (v : Lit) : (infer v).isSome = typable v :=
+  Arca.Proofs.InferComplete.infer_isSome v
+
+/-- the two theorems combined, without mentioning the inferred type -/
+theorem typable_homogeneous_value_is_accepted (v : Lit) (ht : typable v = true) (hw : wf v = true) (hh : homog v = true) :
+    ∃ t, infer v = some t ∧ accepts t v = true := by
+  have h := inference_refuses_exactly_the_untypable v
+  rw [ht] at h
+  cases hi : infer v with
+  | none => rw [hi] at h; cases h
+  | some t => exact ⟨t, rfl, sound_lit v t hi hw hh⟩
+
+example : typable sample = true := by
+  simp [sample, typable, typableItems, typableFields, litTid]
 
 /-- the ranges attached to the Go integer kinds are non-empty (the whole table) -/
 theorem kind_ranges_ordered :
